@@ -34,6 +34,15 @@ class FlowFidelity:
         if not tpls:
             t, opts = g.rand_tpl(nfields=2, allow_var=False)
             tpls.append((t, opts))
+        if rng.random() < 0.3:
+            # SIBLING templates: a second id whose definition differs from the first in ONE respect only (one element, one enterprise
+            # number, one length, two neighbours swapped): same field count, same first field more often than not; their records
+            # follow each other in one message, and each is decoded and published under its own template
+            t0, o0 = tpls[0]
+            t1, o1 = g.mutate_tpl(t0, o0, kind=rng.choice([0, 1, 1, 2, 3]))
+            t1.tid = next(x for x in (t0.tid + 1, t0.tid + 32, 65000, 65001) if 255 < x < 65536 and x not in used)
+            if g.min_rec_len(t1) > 0:
+                tpls = [(t0, o0), (t1, o1)]
         msgs = []      # (bytes, abstract sets, per-data-set (records, lens, pad))
         same_msg = rng.random() < 0.4
         tsets, abstract1 = [], []
@@ -51,8 +60,8 @@ class FlowFidelity:
                 tsets.append(g.enc_set(g.tpl_set_id(opts), g.enc_tpl(t, opts), pad=rng.choice([0, 0, 0, 2]) if self.proto == "ipfix" else 0))
                 abstract1.append(("tpl", [(t, opts)]))
         dsets, abstract2, droprule = [], [], []
-        for _ in range(rng.choice([1, 1, 2, 3])):
-            t, opts = rng.choice(tpls)
+        for di in range(rng.choice([1, 1, 2, 3]) if len(tpls) != 2 else rng.choice([2, 3, 4])):
+            t, opts = rng.choice(tpls) if len(tpls) != 2 else tpls[di % 2]
             nrec = rng.choice([1, 1, 2, 3, 5, 12])
             wires, vals, lens = b"", [], []
             for _ in range(nrec):
@@ -82,6 +91,38 @@ class FlowFidelity:
                     r1, _ = o2.expected_sets(addr, [s])
                     sr.append((r1, s[3], s[4]) if len(r1) == len(s[3]) else (r1, [99] * len(r1), 0))
             exp.append({"recs": recs, "nf": nf, "header": header_of(self.proto, p), "go_rule": go_drop_rule(sr)})
+        line = self.cmd + " " + " ".join(toks)
+        self.expect[line] = exp
+        return line
+
+    def gen_typeinfo(self, g, rng):
+        """RFC 5610 type information: an exporter DESCRIBES information elements in options data records (privateEnterpriseNumber,
+        informationElementId, informationElementDataType, informationElementName) - for an enterprise element, for IANA elements, for
+        ids with the enterprise bit set.  These are data records like any other; what another (or the same) exporter's templates
+        mean afterwards is what the information model says, not what some exporter claimed"""
+        import struct
+        from props.flowgen import Tpl, MINLEN
+        orc = Oracle(self.proto, g.model)
+        a, b = rand_addr(rng), rand_addr(rng)
+        ti = Tpl(500, [(346, 0, 4), (303, 0, 2)], [(339, 0, 1), (341, 0, 65535)])
+        victims = rng.sample([8, 12, 1, 2, 4, 7, 11, 27, 56, 152, 10, 14], 4)
+        wires, vals, lens = b"", [], []
+        for (pen, eid) in [(0, 0x8000 | victims[0]), (0, victims[1]), (29305, 0x8000 | 7), (0, 0x8000 | victims[2]), (0, victims[2])]:
+            name = rng.choice([b"x", b"sourceIPv4Address", b"octetDeltaCount", b"myElement"])
+            v = [struct.pack(">I", pen), struct.pack(">H", eid), bytes([rng.choice([0, 1, 1, 2, 13, 18, 19])]), name]
+            w = v[0] + v[1] + v[2] + bytes([len(name)]) + name
+            wires += w; vals.append(v); lens.append(len(w))
+        tv = Tpl(256, [], [(e, 0, MINLEN.get(g.model[(0, e)][1], 0) or 4) for e in victims])
+        hist = [(a, [g.enc_set(g.tpl_set_id(True), g.enc_tpl(ti, True)), g.enc_set(500, wires)], [("tpl", [(ti, True)]), ("data", 500, vals, lens, 0)])]
+        for who in (b, a):
+            s_, ab = self.data_of(g, rng, tv)
+            hist.append((who, [g.enc_set(g.tpl_set_id(False), g.enc_tpl(tv, False)), s_], [("tpl", [(tv, False)]), ab]))
+        toks, exp = [], []
+        for addr, sets, abstract in hist:
+            p = g.enc_msg(sets)
+            toks += [hx(addr), hx(p)]
+            recs, nf = orc.expected_sets(addr, abstract)
+            exp.append({"recs": recs, "nf": nf, "header": header_of(self.proto, p), "go_rule": recs})
         line = self.cmd + " " + " ".join(toks)
         self.expect[line] = exp
         return line
@@ -147,7 +188,8 @@ class FlowFidelity:
 
     def cases(self, tier, rng, budget):
         g = Gen(self.proto, go_model(), rng)
-        return [self.gen_sandwich(g, rng) if i % 6 == 5 else self.gen_case(g, rng) for i in range(budget)]
+        return [self.gen_typeinfo(g, rng) if (self.proto == "ipfix" and i % 40 == 7) else self.gen_sandwich(g, rng) if i % 6 == 5 else self.gen_case(g, rng)
+                for i in range(budget)]
 
     def post(self, lines, impl, model):
         return impl, subst_floats(model)
@@ -170,6 +212,21 @@ class FlowFidelity:
                         return "KNOWN:last-record-le4: datagram %d: the final record(s) of a data set are dropped when <= 4 octets of the set remain (want %d records, got %d)" % (k, len(e["recs"]), len(g["recs"]))
                     bad = [(i, w, x) for i, (w, x) in enumerate(zip(e["recs"], g["recs"])) if w != x]
                     return "datagram %d: decoded records differ from what the templates describe: want %d records got %d; first difference %s" % (k, len(e["recs"]), len(g["recs"]), bad[:1])
+        # the published message is an observation point of this property as far as the STRUCTURE goes: one entry per decoded record, and
+        # per record the field ids in template order (values and JSON syntax are C05's business; a text that does not parse is left to it)
+        for k, g in enumerate(got):
+            if g.get("kind") == "MSG" and g.get("json", "-").startswith("x"):
+                try:
+                    import json as _json
+                    doc = _json.loads(bytes.fromhex(g["json"][1:]).decode("utf-8", "replace"))
+                    pub = [[f.get("I") for f in rec] for rec in doc.get("DataSets") or []]
+                except Exception:
+                    continue
+                dec = [[int(f.split("/")[0]) for f in rec.split(",") if f] for rec in g["recs"]]
+                if pub != dec:
+                    j = next((i for i, (a, b) in enumerate(zip(dec, pub)) if a != b), min(len(dec), len(pub)))
+                    return ("datagram %d: the published message does not carry the decoded records under their template's field ids: %d records decoded, %d published; "
+                            "record %d decoded with ids %s, published with ids %s" % (k, len(dec), len(pub), j, dec[j] if j < len(dec) else None, pub[j] if j < len(pub) else None))
         strip = lambda o: SEP.join(re.sub(r" J:\S+$", "", x) for x in o.split(SEP))   # the JSON text is C05's business
         if strip(impl) != strip(model):
             return "model/implementation disagreement: impl %r model %r" % (strip(impl)[:400], strip(model)[:400])
